@@ -188,6 +188,32 @@ pub fn run(tier: Tier, seed: u64) -> i32 {
             tree!(sd, decrypt, "server-decrypter", Dir::ClientToServer);
             tree!(se, encrypt, "server-encrypter", Dir::ServerToClient);
             tree!(cd, decrypt, "client-decrypter", Dir::ServerToClient);
+            // every call size 0..=300 (and a few larger) for all four halves against the reference, followed by 32 more bytes
+            let mut all_sizes: Vec<usize> = (0..=300).collect();
+            all_sizes.extend([511, 512, 513, 767, 768, 769, 1000, 1023, 1025, 4096]);
+            for &l in &all_sizes {
+                let p: Vec<u8> = (0..l + 32).map(|j| (j as u8).wrapping_mul(41) ^ (l as u8)).collect();
+                macro_rules! one_call {
+                    ($obj:expr, $op:ident, $name:expr, $dir:expr) => {{
+                        let mut o = $obj.clone();
+                        let mut b = p.clone();
+                        o.$op(&mut b[..l]);
+                        o.$op(&mut b[l..]);
+                        let mut r = wrath_stream(key, $dir);
+                        r.skip(start);
+                        let mut want = p.clone();
+                        r.apply(&mut want);
+                        if b != want {
+                            viol(&report, $name, "call-length", key, json!({"start": start, "len": l}), format!("a single call of {l} bytes (or the 32 bytes after it) disagrees with the reference keystream"));
+                        }
+                        n += 1;
+                    }};
+                }
+                one_call!(ce, encrypt, "client-encrypter", Dir::ClientToServer);
+                one_call!(sd, decrypt, "server-decrypter", Dir::ClientToServer);
+                one_call!(se, encrypt, "server-encrypter", Dir::ServerToClient);
+                one_call!(cd, decrypt, "client-decrypter", Dir::ServerToClient);
+            }
             // call-size alphabet: one call of L bytes vs reference, then object equality with a run in 1-KiB pieces
             for &l in call_sizes {
                 let p = refmodel::ctr_bytes(seed, "c09-size", l);
